@@ -24,6 +24,11 @@ pub fn create_selector_with<T>(
     let (initial, tracker) = root.tracked_scope(&mut f);
     root.current_node.set(prev);
 
+    // The initial run may have disposed the scope that owns the new memo.
+    if !signal.is_alive() {
+        return *signal;
+    }
+
     tracker.create_dependency_link(root, signal.id);
 
     let mut signal_mut = signal.get_mut();
